@@ -155,8 +155,10 @@ def strategy(flags=None):
         cands = sorted(n for n in bn if n not in decl and not n.startswith("g_"))
         focus = cands[draw(st.integers(0, len(cands) - 1))]
         pool = [n for n in cands if n != focus]
-        ext = [n for n in c01.external_names(fn) if n in ("G1", "G2")]
-        if fn.get("closure") and any(e == ("var", "cl") for e in PG.walk_exprs(fn["body"])):
+        # read-only globals / closure variables only: a name the function declares global or
+        # nonlocal and assigns is not an entry-time constant
+        ext = [n for n in c01.external_names(fn) if n in ("G1", "G2") and n not in decl]
+        if fn.get("closure") and "cl" not in decl and any(e == ("var", "cl") for e in PG.walk_exprs(fn["body"])):
             ext.append("cl")
         pool = pool * 2 + ext
         contexts = []
